@@ -753,6 +753,11 @@ class Ev:
             hook = self.seeds.get((base.cls, "__getitem__"))
             if hook:
                 return hook(self, base, idx)
+            if not base.cls.startswith("ext:"):
+                owner, gi, kind = self.model.find_member(base.cls, "__getitem__")
+                if gi is not None:
+                    omod = self.model.mods[owner.split(":")[0]]
+                    return self.call_def(gi, omod, f"{owner}.__getitem__", [base, idx], {})
             raise self.err(f"subscript on object {base!r}", n, mod)
         if is_sym(base):
             items = idx.items if isinstance(idx, Tup) else [idx]
@@ -930,10 +935,16 @@ class Ev:
                 env["__self__"] = args[0]
             env["__masks__"] = {}
             env["__qual__"] = ref
+            is_gen = any(isinstance(x, (ast.Yield, ast.YieldFrom)) for x in ast.walk(fd))
+            if is_gen:
+                env["__yields__"] = []
             try:
                 self.exec_body(body_wo_doc(fd), env, fmod)
             except Ret as r:
-                return r.value
+                if not is_gen:
+                    return r.value
+            if is_gen:
+                return Tup(env["__yields__"], "list")
             return None
         finally:
             self.depth -= 1
@@ -1037,6 +1048,9 @@ class Ev:
         raise self.err("unsupported subscript store", t, mod)
 
     def s_Expr(self, st, env, mod):
+        if isinstance(st.value, ast.Yield):
+            env["__yields__"].append(self.eval(st.value.value, env, mod) if st.value.value is not None else None)
+            return
         if isinstance(st.value, ast.Call):
             self.eval(st.value, env, mod)
             return
